@@ -324,6 +324,9 @@ def stepLineEnd (c : List Nat) (st : PState R) : Except Fault (PState R) := do
       | .svar pre v off => pure { st with isChild := false, stack := rest,
                                           storage := pre ++ [.svar st.storage v off st.off] }
       | .iif pre cs f => closeIif c st pre cs f rest
+      -- 369bade: the loop whose frame is closed here is no longer the current loop
+      | .loop pre f pc => pure { st with isChild := false, stack := rest,
+                                         storage := closeFrame (.loop pre f pc) st.storage, loopChain := pc }
       | other => pure { st with isChild := false, stack := rest, storage := closeFrame other st.storage }
     | _, _ => pure st : Except Fault (PState R))
   finderNext c st
